@@ -14,7 +14,8 @@ Definition kids_check (k : ck) : bool :=
                     | None => true
                     | Some (k', em) =>
                         match l with
-                        | CNew => negb (k_new k) && k_new k' && match em with [FNew] => true | _ => false end
+                        | CNew => (negb (k_new k) && k_new k' && match em with [FNew] => true | _ => false end) ||
+                                  (Bool.eqb (k_new k') (k_new k) && match em with [] => true | _ => false end)   (* refused: the channel has ended *)
                         | _ => Bool.eqb (k_new k') (k_new k) && no_new em
                         end
                     end) all_klbl.
@@ -22,15 +23,18 @@ Lemma kids_all : forall_ck kids_check = true.
 Proof. vm_compute. reflexivity. Qed.
 Lemma kstep_ids k l k' em : kstep k l = Some (k', em) ->
   match l with
-  | CNew => k_new k = false /\ k_new k' = true /\ em = [FNew]
+  | CNew => (k_new k = false /\ k_new k' = true /\ em = [FNew]) \/ (k_new k' = k_new k /\ no_new em = true)
   | _ => k_new k' = k_new k /\ no_new em = true
   end.
 Proof.
   intros Hs. pose proof (forall_ck_ok _ kids_all k) as H. unfold kids_check in H.
   pose proof (proj1 (forallb_forall _ _) H l (all_klbl_ok l)) as H1. cbv beta in H1. rewrite Hs in H1.
   destruct l; try (apply andb_true_iff in H1; destruct H1 as [A B]; apply eqb_prop in A; auto).
-  apply andb_true_iff in H1. destruct H1 as [A C]. apply andb_true_iff in A. destruct A as [A B].
-  apply negb_true_iff in A. destruct em as [|[] [|? ?]]; try discriminate. auto.
+  apply orb_true_iff in H1. destruct H1 as [H1|H1].
+  - left. apply andb_true_iff in H1. destruct H1 as [A C]. apply andb_true_iff in A. destruct A as [A B].
+    apply negb_true_iff in A. destruct em as [|[] [|? ?]]; try discriminate. auto.
+  - right. apply andb_true_iff in H1. destruct H1 as [A C]. apply eqb_prop in A.
+    destruct em; [auto|discriminate].
 Qed.
 
 Definition vids_check (strict : bool) (v : sv) : bool :=
@@ -136,8 +140,9 @@ Proof.
     destruct (kstep (p_k (get m j)) l) as [[k' em]|] eqn:Hks; [|discriminate]. inversion H'; subst m'; clear H'.
     pose proof (kstep_ids _ _ _ _ Hks) as Hid.
     destruct l; try contradiction; try (exists c; apply idinv_kstep; auto; fail).
-    (* CNew: the creation lock hands out the next id *)
-    destruct Hid as (Hk0 & Hk1 & ->). apply negb_false_iff in Hsb.
+    (* CNew: refused (the channel has ended), or the creation lock hands out the next id *)
+    destruct Hid as [(Hk0 & Hk1 & ->)|Hid]; [|exists c; apply idinv_kstep; auto].
+    apply negb_false_iff in Hsb.
     assert (Hjc : j = c).
     { pose proof (Hst j Hj) as E. rewrite Hk0 in E. symmetry in E. apply Nat.ltb_ge in E.
       destruct (Nat.eq_dec j c); auto. exfalso.
